@@ -141,6 +141,21 @@ def m_doubled(toks):
             yield f'opening {t.text} #{i} doubled', text_of(toks[:i + 1] + [Tok(t.text, 'punct')] + toks[i + 1:])
 
 
+def m_repeated(toks):
+    """a whole settings list [...] or body {...} written twice in a row"""
+    stack = []
+    for i, t in enumerate(toks):
+        if t.kind != 'punct':
+            continue
+        if t.text in '[{':
+            stack.append(i)
+        elif t.text in ']}' and stack:
+            j = stack.pop()
+            if toks[j].text + t.text in ('[]', '{}'):
+                group = toks[j:i + 1]
+                yield f'group {toks[j].text}...{t.text} #{j}-{i} repeated', text_of(toks[:i + 1] + [Tok(' ', 'ws')] + group + toks[i + 1:])
+
+
 def lines_of(toks):
     """split the token list into lines (lists of token indices)"""
     cur, out = [], []
@@ -259,7 +274,7 @@ def m_glued(toks):
                 yield f'{t.text}{junk} #{i}', text_of(toks[:i] + [Tok(t.text + junk, 'raw')] + toks[i + 1:])
 
 
-MUTATORS = {'glued': m_glued, 'aftercomment': m_aftercomment, 'stray': m_stray, 'unclosed': m_unclosed, 'doubled': m_doubled, 'badword': m_badword, 'badvalue': m_badvalue, 'truncated': m_truncated}
+MUTATORS = {'glued': m_glued, 'aftercomment': m_aftercomment, 'stray': m_stray, 'unclosed': m_unclosed, 'doubled': m_doubled, 'repeated': m_repeated, 'badword': m_badword, 'badvalue': m_badvalue, 'truncated': m_truncated}
 
 
 def units(tier, seed):
